@@ -11,10 +11,13 @@
 //	PX     Handler.Proxy: the request as it saw it, its answer            UP  the upstream: the request as it saw it
 //	Resp   what the client got: status, content type class, error code, the digests of the decoded data, the other
 //	       top-level fields of the body and the interesting response headers
+//	CtxEnd a Handler call scripted to block: how its context ended (canceled: the client went away - the executor cancels the
+//	       request once the call has begun; deadline: the router's own 10 s request timeout; none: it did not within 40 s)
 //	Probe  after a broken connection: does the listener still serve?      End
 //
 // Nothing here knows what should happen; VapiRouterTrace.tla decides.  The Handler answers as the case scripts it (ok with n
 // fresh random objects of the scripted version / blinded flag / metadata, an error, a panic).  Requests are attributed to
+// (The wait for a context to end is the only real-time wait; its verdict is WHICH way the context ended, not when.)  Requests are attributed to
 // their case by the header X-Verif-Req, which a wrapper IN FRONT of the real router copies into the request context (the
 // Handler methods get that context); VERIF_CONC requests are in flight at a time.
 package vapirouter
